@@ -553,7 +553,9 @@ type outputBuffer struct {
 func (w *outputBuffer) emitEligibleFrames(output chan queuedFrame, connectionWindowSize *int) {
 	for e := w.queue.Front(); e != nil; {
 		f := e.Value.(queuedFrame) //nolint:forcetypeassert // e.Value is always a queuedFrame.
-		if f.flowControlSize() > *connectionWindowSize || f.flowControlSize() > w.windowSize {
+		// Frames without flow-controlled octets are not subject to flow control, they must not wait for a
+		// window that a SETTINGS change has made negative.
+		if f.flowControlSize() > 0 && (f.flowControlSize() > *connectionWindowSize || f.flowControlSize() > w.windowSize) {
 			break
 		}
 		output <- f
